@@ -3,6 +3,7 @@
 package cl
 
 import (
+	"math"
 	"math/big"
 
 	"github.com/ohler55/slip"
@@ -52,7 +53,13 @@ func (f *Subtract) Call(s *slip.Scope, args slip.List, depth int) (dif slip.Obje
 			if pos == len(args)-1 {
 				switch td := dif.(type) {
 				case slip.Fixnum:
-					dif = -td
+					if td == math.MinInt64 {
+						// The negation is not a fixnum.
+						var z big.Int
+						dif = (*slip.Bignum)(z.Neg(big.NewInt(int64(td))))
+					} else {
+						dif = -td
+					}
 				case slip.SingleFloat:
 					dif = -td
 				case slip.DoubleFloat:
@@ -76,7 +83,14 @@ func (f *Subtract) Call(s *slip.Scope, args slip.List, depth int) (dif slip.Obje
 		arg, dif = slip.NormalizeNumber(a, dif)
 		switch ta := arg.(type) {
 		case slip.Fixnum:
-			dif = dif.(slip.Fixnum) - ta
+			td := dif.(slip.Fixnum)
+			if d := td - ta; (td < 0) != (ta < 0) && (d < 0) != (td < 0) {
+				// The difference is not a fixnum.
+				var z big.Int
+				dif = (*slip.Bignum)(z.Sub(big.NewInt(int64(td)), big.NewInt(int64(ta))))
+			} else {
+				dif = d
+			}
 		case slip.SingleFloat:
 			dif = dif.(slip.SingleFloat) - ta
 		case slip.DoubleFloat:
